@@ -55,6 +55,22 @@ func runC18(w *W) {
 			w.Viol(fmt.Sprintf("C18:nayin-pair:%d", k), fmt.Sprintf("pillars %s and %s have nayin %q and %q", gz(2*k), gz(2*k+1), a, b), k)
 		}
 	}
+	// xun and empty branches by the stem-branch pair, on the helper functions themselves: pair i belongs to the decade
+	// i/10 named after its first pair; the decade uses ten consecutive branches and leaves the next two empty
+	for i := 0; i < 60; i++ {
+		k := i / 10
+		wantXun, wantKong := gz(10*k), zhiS[(10*k+10)%12]+zhiS[(10*k+11)%12]
+		var xi int
+		var xun, kong string
+		if msg, p := try(func() {
+			xi, xun, kong = LunarUtil.GetXunIndex(gz(i)), LunarUtil.GetXun(gz(i)), LunarUtil.GetXunKong(gz(i))
+		}); p {
+			w.Viol(fmt.Sprintf("C18:xun:panic:%d", i), msg, i)
+		} else if xi != k || xun != wantXun || kong != wantKong {
+			w.Viol(fmt.Sprintf("C18:xun:%d", i), fmt.Sprintf("pillar %s: xun index %d name %s empty %s, rule says %d %s %s", gz(i), xi, xun, kong, k, wantXun, wantKong), i)
+		}
+		w.R.Evals++
+	}
 	fd := func(table, key, val, wit string) {
 		t := w.R.FD[table]
 		if t != nil {
